@@ -28,6 +28,7 @@ type GenOpts struct {
 	BigProb  int    // 1-in-N chance that a list/text takes a big length (0 = never)
 	NoAbsent bool   // Arbitrary mode without absent parts (for checks that need must-succeed encodes)
 	ForceKey string // if non-empty: the top-level type's dynamic part uses this registered key
+	HugeObj  int    // 1-in-N chance that a 32-bit-count object list takes more than 2^22 / about 1.5 million elements (thorough tier only; 0 = never)
 	HugeProb int    // 1-in-N chance that a 32-bit-prefixed text/list takes a length around 2^16..2^20 / 10^5 / 10^6 (0 = never)
 }
 
@@ -535,6 +536,9 @@ func (g *gen) value(typeName string, label string, depth int) *Value {
 			g.hugeCap = 131073
 			n := g.length(l, NMask(f.Count))
 			g.hugeCap = 0
+			if g.o.HugeObj > 0 && g.mult <= 1 && depth <= 1 && NMask(f.Count) >= 1<<31 && rapid.IntRange(0, g.o.HugeObj-1).Draw(g.rt, l+".hugeobj") == g.o.HugeObj-1 {
+				n = rapid.SampledFrom([]int{1<<22 - 1, 1 << 22, 1<<22 + 3, 1500000, 3 << 19}).Draw(g.rt, l+".hugeobjlen")
+			}
 			g.noteList(n, NMask(f.Count))
 			x.OL = make([]*Value, n)
 			elem := ts.Module + "." + f.Elem
@@ -687,7 +691,7 @@ func GenValue(rt *rapid.T, typeName string, o GenOpts) (*Value, *Features) {
 // DefaultOpts: list-size policy per tier.
 func DefaultOpts(m Mode) GenOpts {
 	if Thorough() {
-		return GenOpts{Mode: m, MaxList: 70000, BigProb: 12, HugeProb: 25}
+		return GenOpts{Mode: m, MaxList: 70000, BigProb: 12, HugeProb: 25, HugeObj: 150}
 	}
 	return GenOpts{Mode: m, MaxList: 70000, BigProb: 40, HugeProb: 100}
 }
